@@ -281,13 +281,29 @@ def run(repo: Repo, ctx) -> None:
                      and norm(n.targets[0]) == 'refs_to'
                      and norm(n.value) == 'None']
             g = CFG(f.node)
+            # ... or under a test that compares the old reference set with
+            # the new one (nothing to update when they agree / are both
+            # empty): it has to mention both arguments of the update call
+            def _names(e):
+                return {x.id for x in ast.walk(e) if isinstance(x, ast.Name)}
+            old_n, new_n = set(), set()
+            for c in srcs:
+                if len(c.args) >= 4:
+                    old_n |= _names(c.args[2])
+                    new_n |= _names(c.args[3])
+            old_n, new_n = old_n - new_n, new_n - old_n
             for n in nones:
                 nid = g.nodes_of(n)
                 guards = [t.id for t in g.nodes if t.kind == 'test' and
                           norm(t.ast) in ('not is_object_ref',
                                           'not object_ref_fields')]
-                ok = ok and bool(nid) and any(
-                    g.edge_dominates(t, 'T', nid[0]) for t in guards)
+                both = [t.id for t in g.nodes if t.kind == 'test'
+                        and old_n and new_n
+                        and _names(t.ast) & old_n and _names(t.ast) & new_n]
+                ok = ok and bool(nid) and (any(
+                    g.edge_dominates(t, 'T', nid[0]) for t in guards) or any(
+                    g.edge_dominates(t, lab, nid[0]) for t in both
+                    for lab in ('T', 'F')))
             ctx.ob('C04.R2', f'{f.name}:refs_to', ok,
                    f'{f.name}: the reverse-reference index passed to '
                    f'_replace does not come from _update_refs_to with the '
@@ -366,15 +382,44 @@ def run(repo: Repo, ctx) -> None:
                   and 'SchemaError' in norm(g.nodes[x].ast)]
         # the delete is after the guard block on every path
         ok = has_ref and bool(raises) and g.always_before(dels[0], [gt.id])
-        # the raise is guarded by collected blocking refs
-        rt = [t for t in g.nodes if t.kind == 'test'
-              and norm(t.ast) == 'ref_strs']
+        # the raise is guarded by the collected blocking refs: a test on a
+        # local that is built from the referrers (assigned from an
+        # expression over them, or appended to while scanning them)
+        region_txt = ' '.join(norm(g.nodes[x].ast) for x in inside
+                              if g.nodes[x].ast is not None)
+
+        def from_refs(name: str, depth: int = 3) -> bool:
+            for n in ast.walk(df.node):
+                if isinstance(n, ast.Assign) and any(
+                        isinstance(t, ast.Name) and t.id == name
+                        for t in n.targets):
+                    v = norm(n.value)
+                    if 'get_referrers' in v or 'is_blocking_ref' in v:
+                        return True
+                    if depth and any(
+                            from_refs(x.id, depth - 1)
+                            for x in ast.walk(n.value)
+                            if isinstance(x, ast.Name) and x.id != name):
+                        return True
+                if isinstance(n, ast.Call) and isinstance(
+                        n.func, ast.Attribute) and n.func.attr in (
+                        'append', 'add', 'extend') and norm(
+                        n.func.value) == name:
+                    # appended to under the blocking-ref test
+                    for t in g.nodes:
+                        if t.kind == 'test' and 'is_blocking_ref' in norm(
+                                t.ast):
+                            return True
+            return False
+        rt = [t for t in g.nodes if t.kind == 'test' and t.id in inside
+              and any(isinstance(x, ast.Name) and from_refs(x.id)
+                      for x in ast.walk(t.ast.test if hasattr(t.ast, 'test')
+                                        else t.ast))]
         ok = ok and bool(rt) and all(
             any(g.edge_dominates(t.id, 'T', r) for t in rt) for r in raises)
         # blocking refs are collected unless being deleted themselves
-        ok = ok and any('is_blocking_ref' in norm(t.ast) and
-                        '_is_deleting_ref' in norm(t.ast)
-                        for t in g.nodes if t.kind == 'test')
+        ok = ok and 'is_blocking_ref' in region_txt and \
+            '_is_deleting_ref' in region_txt
     ctx.ob('C04.R3', '_delete_finalize:referrer-check', ok,
            'the object is deleted on a path that has not checked its '
            'referrers (outside canonical / disabled verification mode), or '
